@@ -620,3 +620,228 @@ def rule_cfg_matrix(ctx):
             )
     ctx.note(f"{len(results)} configurations type-checked in {time.time() - t0:.0f}s, {warn_total} warnings in total")
     ctx.floor("configurations", len(results), 48)
+
+
+# ---------------------------------------------------------------- CFG-DEFUSE / SYN-FEAT (static, no cargo run)
+
+
+def _items_with_pred(f, modpred):
+    """[(item, predicate, (lo_line, hi_line), enclosing inline mods)] for every item of a file (inline modules followed)"""
+    out = []
+    for it, mods, cfgs in A.iter_items(f.ast["items"]):
+        sp = A.span_of(it)
+        if sp is None:
+            continue
+        pred = p_and(modpred, *[_parse_text_cfg(c) for c in cfgs])
+        out.append((it, pred, (f.line(sp[0]), f.line(sp[1])), mods))
+        if A.kind(it) == "Item::Impl":
+            for ii in it["items"]:
+                ips = [parse_cfg(t) for t in A.cfg_attrs(ii.get("attrs"))]
+                sp2 = A.span_of(ii)
+                if ips and sp2:
+                    out.append((ii, p_and(pred, *ips), (f.line(sp2[0]), f.line(sp2[1])), mods))
+    return out
+
+
+def _pred_at(items, line):
+    best = None
+    for it, pred, (lo, hi), mods in items:
+        if lo <= line <= hi and (best is None or (hi - lo) <= (best[2][1] - best[2][0])):
+            best = (it, pred, (lo, hi), mods)
+    return best
+
+
+def _use_leaf_names(tree, prefix=()):
+    """[(path segments, leaf name)] of a use tree"""
+    k = A.kind(tree)
+    if k is None and isinstance(tree, dict) and "0" in tree:
+        return _use_leaf_names(tree["0"], prefix)
+    if k == "UseTree::Path" or k == "UsePath":
+        t = tree["0"] if "0" in tree and A.kind(tree) == "UseTree::Path" else tree
+        return _use_leaf_names(t["tree"], prefix + (t["ident"]["sym"],))
+    if k == "UseTree::Name" or k == "UseName":
+        t = tree["0"] if "0" in tree and A.kind(tree) == "UseTree::Name" else tree
+        return [(prefix, t["ident"]["sym"])]
+    if k == "UseTree::Rename" or k == "UseRename":
+        t = tree["0"] if "0" in tree and A.kind(tree) == "UseTree::Rename" else tree
+        return [(prefix, t["rename"]["sym"])]
+    if k == "UseTree::Group" or k == "UseGroup":
+        t = tree["0"] if "0" in tree and A.kind(tree) == "UseTree::Group" else tree
+        out = []
+        for x in t["items"]:
+            out += _use_leaf_names(x, prefix)
+        return out
+    return []
+
+
+EXTERNAL_ROOTS = {"syn", "quote", "proc_macro2", "std", "core", "alloc", "convert_case", "unicode_xid", "proc_macro"}
+
+
+def rule_cfg_defuse(ctx):
+    """CFG-DEFUSE: every item of the proc-macro crate that exists only under a `#[cfg(..)]` (helper modules, re-exports, functions, types of impl/src/utils.rs and its sub-modules) is available wherever it is named: the predicate of each using item (file gate x enclosing item gates) implies the disjunction of the predicates under which a definition / re-export of that name exists. Decided by exhaustive truth tables over the feature variables; nothing is compiled. A gate that loses a feature (`any(.., feature = "try_from")` dropped from `mod either`) breaks exactly the configurations enabling only that feature, which the `full` test build never sees."""
+    mp = module_predicates(ctx.files, "impl/src/lib.rs", "impl/src")
+    defs = {}  # name -> [pred]
+    ungated = set()
+    external = set()
+    per_file_items = {}
+    for rel, f in sorted(ctx.files.items()):
+        if not rel.startswith("impl/src/") or rel not in mp:
+            continue
+        items = _items_with_pred(f, mp[rel])
+        per_file_items[rel] = items
+        for it, pred, lines, mods in items:
+            k = A.kind(it)
+            names = []
+            if k in ("Item::Fn", "ImplItem::Fn"):
+                names = [it["sig"]["ident"]["sym"]] if k == "Item::Fn" else []
+            elif k in ("Item::Struct", "Item::Enum", "Item::Type", "Item::Trait", "Item::Const", "Item::Static", "Item::Mod", "Item::Union"):
+                names = [it["ident"]["sym"]]
+            elif k == "Item::Use":
+                for pre, leaf in _use_leaf_names(it["tree"]):
+                    if pre and pre[0] in EXTERNAL_ROOTS:
+                        external.add(leaf)
+                    elif leaf not in ("self", "_"):
+                        names.append(leaf)
+            own = item_cfg(it) if k != "ImplItem::Fn" else TRUE
+            for n in names:
+                if not rel.endswith("utils.rs"):
+                    # definitions outside utils.rs only matter to know that a name is not exclusively utils'
+                    if k != "Item::Use":
+                        ungated.add(n) if own == TRUE else None
+                    continue
+                if own == TRUE and all(True for _ in ()) and pred == mp[rel] and not mods:
+                    ungated.add(n)
+                else:
+                    defs.setdefault(n, []).append(pred)
+    # a name that is also reached through an external crate somewhere (`syn::Meta`) is ambiguous: left out
+    for rel, f in ctx.files.items():
+        if rel not in per_file_items:
+            continue
+        for x, _ in A.find(f.ast, "Path"):
+            segs = [s_["ident"]["sym"] for s_ in x["segments"]]
+            if len(segs) > 1 and segs[0] in EXTERNAL_ROOTS:
+                external.update(segs[1:])
+    names = {n for n in defs if n not in ungated and n not in external and len(n) > 2}
+    ctx.note(f"{len(names)} cfg-gated names defined in impl/src/utils.rs: {sorted(names)[:40]}")
+    n_uses = 0
+    for rel, f in sorted(ctx.files.items()):
+        if rel not in per_file_items:
+            continue
+        items = per_file_items[rel]
+        for x, ps in A.walk(f.ast):
+            k = A.kind(x)
+            seg_names = []
+            if k == "Path":
+                segs = [s["ident"]["sym"] for s in x["segments"]]
+                # a lower-case name is a module only when something follows it; alone it is a local variable
+                seg_names = [s for i, s in enumerate(segs) if s[0].isupper() or i + 1 < len(segs)]
+            elif k in ("UseName", "UseRename") or k in ("UseTree::Name",):
+                t = x["0"] if "0" in x and A.kind(x) == "UseTree::Name" else x
+                if "ident" in t:
+                    seg_names = [t["ident"]["sym"]]
+            else:
+                continue
+            hit = [s for s in seg_names if s in names]
+            if not hit:
+                continue
+            sp = A.span_of(x)
+            if sp is None:
+                continue
+            line = f.line(sp[0])
+            at = _pred_at(items, line)
+            if at is None:
+                continue
+            it, pred, lines, mods = at
+            for nm in hit:
+                # the defining item itself
+                if A.kind(it) in ("Item::Mod",) and it["ident"]["sym"] == nm:
+                    continue
+                if A.kind(it) == "Item::Use" and rel.endswith("utils.rs") and any(leaf == nm for _, leaf in _use_leaf_names(it["tree"])) and not mods:
+                    continue
+                if A.kind(it) in ("Item::Struct", "Item::Enum", "Item::Type", "Item::Trait", "Item::Fn") and it.get("ident", it.get("sig", {}).get("ident", {})).get("sym") == nm:
+                    continue
+                n_uses += 1
+                want = ("any", defs[nm])
+                ok, cex = implies(pred, want)
+                ctx.obligation(ok)
+                if not ok:
+                    ctx.report(
+                        f"defuse:{rel}:{nm}:{p_str(pred)[:60]}",
+                        f"{rel}:{line}",
+                        f"`{nm}` is named under {p_str(pred)} but is defined / re-exported only under {p_str(want)}: with features {sorted(k_ for k_, v in cex.items() if v) or '(none)'} the proc-macro crate does not build "
+                        "(the `full` test build cannot see it)",
+                        {"counterexample": {k_: v for k_, v in cex.items()}},
+                    )
+    ctx.cur.instances += n_uses
+    ctx.note(f"{n_uses} uses of gated names checked")
+    ctx.floor("gated names", len(names), 10)
+    ctx.floor("uses of gated names", n_uses, 150)
+
+
+def _feature_closure(feats):
+    out = {}
+    for f in feats:
+        seen = set()
+        todo = [f]
+        while todo:
+            x = todo.pop()
+            for e in feats.get(x, []):
+                if e not in seen:
+                    seen.add(e)
+                    if e in feats:
+                        todo.append(e)
+        out[f] = seen
+    return out
+
+
+SYN_EXTRA = re.compile(r"impl (?:std|core)::(?:cmp::(?:PartialEq|Eq)|hash::Hash|fmt::Debug) for (?:syn|proc_macro2)::|<(?:&)*syn::[\w:]+(?:<[^>]*>)? as std::(?:cmp::(?:PartialEq|Eq)|hash::Hash|fmt::Debug)>")
+
+
+def rule_syn_features(ctx):
+    """SYN-FEAT: code that needs an optional capability of a dependency is compiled only under features that turn the capability on: a call that rustc resolved to `PartialEq` / `Eq` / `Hash` / `Debug` of a `syn` syntax-tree type needs `syn/extra-traits`, a call into `syn::visit` needs `syn/visit`, a call into `convert_case` / `unicode_xid` needs the optional dependency. The predicate of the calling item (file gate x item gates, from the syntax tree) must imply the disjunction of the impl-crate features whose (transitive) entries enable it. Resolved callees come from the type-checked `full` build; the implication is decided by truth tables - no per-feature build is needed to see that `variant.fields != Fields::Unit` inside `from_str.rs` breaks `--features from_str`."""
+    imp = _toml_features(os.path.join(ctx.repo, "impl", "Cargo.toml"))
+    clo = _feature_closure(imp)
+    needs = {
+        "syn/extra-traits": lambda c: SYN_EXTRA.search((c.get("resolved") or "") + " " + (c.get("full") or "")) is not None,
+        "syn/visit": lambda c: (c.get("resolved") or c.get("callee") or "").startswith("syn::visit::") or "syn::visit::Visit" in (c.get("full") or ""),
+        "dep:convert_case": lambda c: "convert_case::" in ((c.get("resolved") or "") + (c.get("full") or "")),
+        "dep:unicode-xid": lambda c: "unicode_xid::" in ((c.get("resolved") or "") + (c.get("full") or "")),
+    }
+    enabling = {cap: [("feat", f) for f in sorted(imp) if cap in clo[f] and f not in ("full", "default")] for cap in needs}
+    for cap, en in enabling.items():
+        if not en:
+            raise A.AnchorLost("impl/Cargo.toml::[features]", f"no feature enables `{cap}`")
+    mp = module_predicates(ctx.files, "impl/src/lib.rs", "impl/src")
+    items_cache = {}
+    n = 0
+    per_cap = {c: 0 for c in needs}
+    for b in ctx.mir.bodies:
+        for c in b.get("calls", []):
+            rel = c.get("rel") or b.get("rel")
+            if not rel or rel not in mp or rel not in ctx.files:
+                continue
+            for cap, test in needs.items():
+                if not test(c):
+                    continue
+                if rel not in items_cache:
+                    items_cache[rel] = _items_with_pred(ctx.files[rel], mp[rel])
+                at = _pred_at(items_cache[rel], c["line"])
+                if at is None:
+                    continue
+                pred = at[1]
+                n += 1
+                per_cap[cap] += 1
+                want = ("any", enabling[cap])
+                ok, cex = implies(pred, want)
+                ctx.obligation(ok)
+                if not ok:
+                    ctx.report(
+                        f"synfeat:{rel}:{b['path']}:{cap}",
+                        f"{rel}:{c['line']}",
+                        f"`{b['path']}` (compiled under {p_str(pred)}) calls `{(c.get('full') or c.get('resolved'))[:100]}`, which exists only with `{cap}`; only {[e[1] for e in enabling[cap]]} enable it: "
+                        f"with features {sorted(k for k, v in cex.items() if v) or '(none)'} the proc-macro crate does not build",
+                        {},
+                    )
+    ctx.cur.instances += n
+    ctx.note(f"capability-dependent calls: {per_cap}")
+    ctx.floor("capability-dependent calls", n, 15)
